@@ -1056,7 +1056,7 @@ Section("single_spellings", ["single_spellings"], st_single_spellings, render_pa
 
 def st_status_fields(src, got):
     stf = _status_impl(src)
-    sfields = re.findall(r'(?:optional_value|value|song_identifier|get)\(\s*(?:f,\s*)?((?:"[^"]*"(?:,\s*)?)+)\)', stf)
+    sfields = re.findall(r'(?<![\w])(?:optional_value|value|song_identifier|get)\(\s*(?:&?\s*(?:mut\s+)?\w+\s*,\s*)?((?:"[^"]*"(?:,\s*)?)+)\)', stf)
     flat = []
     for grp in sfields:
         flat += re.findall(r'"([^"]*)"', grp)
